@@ -1216,6 +1216,27 @@ class World:
             return self.aend()
         if act == 'Pad':
             return True
+        if act == 'Until':               # hand-written: step h's request until it is stopped at op
+            n = 0
+            while self.can_call(args[0]) and self.hosts[args[0]].slot.pending[0] != args[1] and n < 200:
+                self.call(args[0])
+                n += 1
+            return self.can_call(args[0])
+        if act == 'UntilRewrite':        # hand-written: step h's request until it has just read a
+            n = 0                        # node as its own and is about to touch the same path again
+            while self.can_call(args[0]) and n < 200:
+                self.call(args[0])
+                n += 1
+                last = self.lines[-1]
+                slot = self.hosts[args[0]].slot
+                if last.get('op') == 'get' and last.get('res') == 'ok' and last.get('seen') == last.get('s') \
+                        and slot is not None and slot.state == 'gate' and slot.pending[1] == last.get('path'):
+                    return True
+            return False
+        if act == 'Cont':                # hand-written: the request in flight to its end
+            while self.can_call(args[0]):
+                self.call(args[0])
+            return self.end(args[0])
         if act == 'Run':                 # hand-written schedules: a whole request
             if not self.begin(args[0]):
                 return False
@@ -1325,7 +1346,15 @@ def run_random(scn, rng, steps, max_expire=2, p_expire=0.04, ext=False):
             exp = [a for a in acts if a[0] in ('Expire', 'Crash')]
             reap = [a for a in acts if a[0] == 'Reap']
             r = rng.random()
-            if helpers and rng.random() < 0.08:
+            last = world.lines[-1]
+            at_set = [h for h in scn['hosts'] if helpers and world.can_call(h) and
+                      last.get('h') == h and last.get('op') == 'get' and last.get('seen') == last.get('s')
+                      and world.hosts[h].slot.pending[1] == last.get('path')]
+            if at_set and rng.random() < 0.5:
+                # between the read and the rewrite of the service's own node
+                hh = rng.choice(at_set)
+                act, args = rng.choice([a for a in helpers if a[1][0] == hh])
+            elif helpers and rng.random() < 0.08:
                 act, args = rng.choice(helpers)
             elif exp and r < p_expire:
                 act, args = rng.choice(exp)
